@@ -19,6 +19,6 @@ def run(tier, seed):
     def mon(H, R, case):
         return sf.mon_c03(H, R.solver, R.ok, R.store, R.exc) if hasattr(R, 'solver') else []
     sf.run_generated_monitor(ck, H, dis_cases + cases, mon, 'C03')
-    sf.run_real_monitor(ck, n_real, rng, lambda H, res, sc_: sf.mon_c03(H, res['solver'], res['ok'], res['store'], res['exc']), 'C03')
+    sf.run_real_monitor(ck, n_real, rng, lambda H, res, sc_: sf.mon_c03(H, res['solver'], res['ok'], res['store'], res['exc']) + sf.mon_solution_text(H, res['solver'], res['ok'], res['store'], res['exc']), 'C03')
     ck.sample({'generated_case': cases[len(cases) // 3]})
     return sf.finish_family(ck, 'C03')
